@@ -72,6 +72,18 @@ CHECKS = {
         note="Bounded: N<=5 atoms per alphabet (exhaustive); the model's recursion is unbounded, the implementation's depth limit is probed separately; NotImplementedError from the general transmission line model counts as a deliberate refusal.",
         technique="TLA+ spec (CDC.tla, CDCTotal.tla) + TLC exhaustive enumeration of atom sequences; spec->code replay of every input with outcome-class comparison",
     ),
+    "C16": dict(
+        text="specs/Circuit.tla grows every circuit up to the bounds (plain and labelled leaves, duplicate labels, container elements "
+             "with default, multi-element, parallel and nested container sub-circuits) and computes the traversal order of "
+             "_get_elements_recursive (queue semantics, sub-circuits appended at the end) with the running and per-type identifier maps; "
+             "TLC checks bijection onto 0..N-1 / 1..k, name uniqueness up to duplicate labels and that every element is reached once. "
+             "Every complete circuit is built for real and generate_element_identifiers(True/False), get_element_name, the free symbols "
+             "of to_sympy(), generate_fit_identifiers, FitResult.parameters / to_parameters_dataframe (values matched to elements) and "
+             "the CircuiTikZ labels are compared with the model element by element (elements matched by path = identity).",
+        design_ref="§4 C16",
+        note="Bounded: <=4 leaves, depth <=3, ten leaf kinds; plotting module traversals are not covered.",
+        technique="TLA+ spec (Circuit.tla over CDC.tla nodes) + TLC BFS over builder states; spec->code replay of every circuit with per-element comparison",
+    ),
     "C17": dict(
         text="specs/FanOut.tla models the shape shared by every fan-out point (submit, W workers, ordered or completion-order "
              "collection, stable sort by a key, pick the head; Z-HIT = two chained stages so the submission order is arbitrary too) and "
@@ -96,6 +108,16 @@ CHECKS = {
         design_ref="§4 C18",
         note="Configurations x sizes are finite samples of the input space (one mock spectrum family); size floors per entry point are frozen; KK/DRT step accounting is validated against the counter machine only, not re-derived.",
         technique="TLA+ spec (Progress.tla, ProgressMC.tla) + TLC; spec->code drive of every option combination and code->spec batched trace validation (TraceProgress.tla)",
+    ),
+    "C20": dict(
+        text="The circuits of specs/Circuit.tla (incl. degenerate API-only shapes and labels that are not identifiers) are enumerated by "
+             "TLC; for every complete, simulatable circuit the real to_sympy(False/True), to_latex, to_circuitikz and to_drawing are "
+             "produced and compared with the model: free symbols are exactly the model's one-per-parameter set (subset for containers), "
+             "no free variable but f after substitution, one CircuiTikZ component per element of the connection structure in traversal "
+             "order named as the circuit names it, balanced begin/end.",
+        design_ref="§4 C20",
+        note="Coordinates of the layout are not modelled (Layout.tla of the design was not built); degenerate API-only shapes are recorded known findings.",
+        technique="TLA+ spec (Circuit.tla) + TLC enumeration; spec->code replay of every circuit through all four exports with model-derived expectations",
     ),
 }
 
